@@ -91,23 +91,34 @@ def parse(lines: list,
     for line in lines:
         line = line.rstrip('\n')
         prev_byte_is_high_nibble = False
+        # Data bytes of this line; only kept if the line matches the format
+        line_data = bytearray()
+        line_matches = True
         # Note: sometimes last line of hexdump is shorter than line format
         if len(line) <= len(line_format):
             for i in range(len(line)):
                 if (line_format[i] == 'A'):
                     if not hex_digit.match(line[i]):
+                        line_matches = False
                         break
                 elif (line_format[i] == 'D'):
                     if not hex_digit.match(line[i]):
+                        # Blank padding ends the data of a short last line;
+                        # anything else means this is not a hex dump line
+                        if line[i] != ' ':
+                            line_matches = False
                         break
                     if prev_byte_is_high_nibble:
                         byte_val = bytes.fromhex(line[(i-1):(i+1)])
-                        data.extend(byte_val)
+                        line_data.extend(byte_val)
                         prev_byte_is_high_nibble = False
                     else:
                         prev_byte_is_high_nibble = True
                 elif (line_format[i] == 'C'):
                     continue
                 elif (line_format[i] != line[i]):
+                    line_matches = False
                     break
+            if line_matches:
+                data.extend(line_data)
     return data
